@@ -1,6 +1,6 @@
 SPECIFICATION SpecC
 CONSTANTS Names <- NamesT Depth = 2 Vals <- ValsT Sep = 46 Design = "list" Base <- NoBase MaxSlots = 3
-  Strs <- NoStrs Seps <- NoStrs Asgs <- NoStrs Elems <- NoStrs
+  Ends <- EndsQ Strs <- NoStrs Seps <- NoStrs Asgs <- NoStrs Elems <- NoStrs
 CONSTRAINT Bound
 VIEW ViewC
 INVARIANTS Refines PrefixClosed
